@@ -7,7 +7,7 @@ CONSTANTS
   MaxCallsR2 = 2
   KindsR1 = {"lookup", "current"}
   KindsR2 = {"lookup", "current"}
-  MaxAppends = 2
+  MaxAppends = 1
   NUpdaters = 2
   VaaNames = {}
 INVARIANTS
